@@ -327,6 +327,18 @@ class FieldMappingTransformationBase(DetectionItemTransformation):
             self.processing_item is None or self.processing_item.match_field_name(field)
         ):
             field_match = True
+            # The field name of a detection item is tracked like the field names in the field list
+            # and in field references, so that field name conditions of later items see it.
+            if (
+                field is not None
+                and self.processing_item is not None
+                and self._pipeline is not None
+            ):
+                self._pipeline.track_field_processing_items(
+                    field,
+                    [mapping] if isinstance(mapping, str) else list(mapping),
+                    self.processing_item.identifier,
+                )
             # If mapping from None (keyword) to a field, add wildcards to preserve keyword semantics
             if field is None and isinstance(mapping, (str, list)):
                 # Wrap string values with wildcards to maintain keyword search behavior
